@@ -11,7 +11,7 @@ date first and the dependent is re-evaluated afterwards (C03).
 
 class Rec:
     __slots__ = ('built', 'failed', 'exists', 'who', 'seen', 'outver', 'content', 'always', 'watch_absent',
-                 'built_run', 'owner', 'phony', 'stamped', 'removed_mark', 'removed_run', 'extra', 'user_seen', 'tolerated', 'user_removed', 'static')
+                 'built_run', 'owner', 'phony', 'stamped', 'removed_mark', 'removed_run', 'extra', 'user_seen', 'tolerated', 'user_removed', 'static', 'meta_changed')
 
     def __init__(self):
         self.built = False        # a build has been attempted and recorded
@@ -32,6 +32,7 @@ class Rec:
         self.user_seen = False     # a command has met the user's version of this file
         self.user_removed = False  # a hand-made file that redo had seen in the place of this (phony) target was removed again
         self.tolerated = False     # the last successful build carried on after a dependency had failed
+        self.meta_changed = False  # the user changed the file's metadata only (chmod): same bytes, size, mtime, another stamp
         self.static = False        # its rule vanished and redo took the file for a source (redo has forgotten that it was a target)
         self.extra = {}            # checksummed targets redo built out of band on behalf of this target's script -> version
 
@@ -122,6 +123,9 @@ class Model:
             return 'failed-last-time'
         if not r.phony and not r.exists:
             return 'file-removed'
+        if r.meta_changed and r.exists and r.owner != 'user':
+            # redo compares the whole stamp (mode, owner, ... included): the target is dirty, but no hand edit (mtime and size agree)
+            return 'metadata-changed'
         if r.phony and r.user_removed:
             return 'user-file-removed'
         if r.who != p.who(n):
@@ -545,6 +549,7 @@ class Model:
         r.built = True
         r.built_run = self.run
         r.user_removed = False
+        r.meta_changed = False
         r.static = False
         depfail = who is None
         if who is not None:
